@@ -452,3 +452,91 @@ pub fn exec(req: &ExecRequest) -> Value {
     resp.insert("wall_us".into(), json!(t0.elapsed().as_micros() as u64));
     Value::Object(resp)
 }
+
+
+/// Runs a script on a bare KotoVm (typed errors): returns the trace of an uncaught runtime error mapped through the
+/// chunk's debug info, and the rendered message
+pub fn exec_trace(req: &ExecRequest) -> Value {
+    use koto_bytecode::ModuleLoader;
+    let out = OutputCapture::default();
+    let mut resp = serde_json::Map::new();
+    let mut vm = KotoVm::with_settings(KotoVmSettings {
+        execution_limit: if req.limit_ms > 0 { Some(Duration::from_millis(req.limit_ms)) } else { None },
+        stdout: make_ptr!(out.clone()),
+        stderr: make_ptr!(out.clone()),
+        ..Default::default()
+    });
+    let mut loader = ModuleLoader::default();
+    let settings = CompilerSettings {
+        enable_type_checks: req.type_checks,
+        export_top_level_ids: req.export_top,
+        ..Default::default()
+    };
+    let compiled = panics::guarded(|| loader.compile_script(&req.src, req.path.as_deref().map(|p| p.into()), settings));
+    let chunk = match compiled {
+        Err(p) => {
+            resp.insert("outcome".into(), json!("panic"));
+            resp.insert("panic".into(), panics::to_json(&p));
+            return Value::Object(resp);
+        }
+        Ok(Err(e)) => {
+            resp.insert("outcome".into(), json!("compile_error"));
+            let shown = panics::guarded(|| e.to_string());
+            match shown {
+                Ok(s) => { resp.insert("error".into(), json!(s)); }
+                Err(p) => {
+                    resp.insert("outcome".into(), json!("panic"));
+                    resp.insert("panic".into(), panics::to_json(&p));
+                    return Value::Object(resp);
+                }
+            }
+            if let Some(source) = &e.source {
+                let s = source.span;
+                resp.insert("span".into(), json!([s.start.line, s.start.column, s.end.line, s.end.column]));
+            }
+            return Value::Object(resp);
+        }
+        Ok(Ok(c)) => c,
+    };
+    let run = panics::guarded(|| vm.run(chunk.clone()));
+    resp.insert("stdout".into(), json!(out.take()));
+    match run {
+        Err(p) => {
+            resp.insert("outcome".into(), json!("panic"));
+            resp.insert("panic".into(), panics::to_json(&p));
+        }
+        Ok(Ok(v)) => {
+            resp.insert("outcome".into(), json!("ok"));
+            let shown = panics::guarded(|| vm.value_to_string(&v)).ok().and_then(|r| r.ok());
+            resp.insert("result".into(), json!(shown));
+        }
+        Ok(Err(e)) => {
+            resp.insert("outcome".into(), json!("runtime_error"));
+            let mut frames = Vec::new();
+            for frame in e.trace.iter() {
+                match frame.chunk.debug_info.get_source_span(frame.instruction) {
+                    Some(span) => frames.push(json!({
+                        "start_line": span.start.line, "start_column": span.start.column,
+                        "end_line": span.end.line, "end_column": span.end.column,
+                        "same_chunk": koto_runtime::Ptr::ptr_eq(&frame.chunk, &chunk),
+                    })),
+                    None => frames.push(json!({"missing_span": true})),
+                }
+            }
+            resp.insert("frames".into(), Value::Array(frames));
+            match panics::guarded(|| e.to_string()) {
+                Ok(full) => { resp.insert("rendered".into(), json!(full)); }
+                Err(p) => {
+                    resp.insert("outcome".into(), json!("panic"));
+                    resp.insert("panic".into(), panics::to_json(&p));
+                }
+            }
+            resp.insert("kind".into(), json!(match &e.error {
+                koto_runtime::ErrorKind::KotoError { .. } => "thrown",
+                koto_runtime::ErrorKind::Timeout(_) => "timeout",
+                _ => "runtime",
+            }));
+        }
+    }
+    Value::Object(resp)
+}
